@@ -49,13 +49,14 @@ Enabled(T) ==
 \* requirement failures of one step (signature strings)
 Fails(T, o, r) ==
   (IF ~NoStaleMount(T, r.s, o.op, r.res) THEN {"stale|" \o StaleClass(T)} ELSE {})
-  \cup (IF ~NoHang(r.res) THEN {"hang|already-mounted"} ELSE {})
+  \cup (IF ~NoHang(T, r.res) THEN {"hang|already-mounted"} ELSE {})
 KnownSig == {"stale|conn-aborted", "stale|mounted-twice", "hang|already-mounted"}
 
 Init == S = S0 /\ hist = <<>> /\ bad = {} /\ taint = {}
 \* a history ends at a hang (the harness releases it by aborting every connection; each costs its grace period)
 Next == /\ Len(hist) < MaxOps
         /\ "hang|already-mounted" \notin taint \cup bad
+        /\ (hist # <<>> => hist[Len(hist)].exp # "hang")
         /\ \E e \in Enabled(S) :
              LET o == e[1] r == e[2] f == Fails(S, o, r) IN
              /\ S' = Settle(r.s)
